@@ -326,7 +326,7 @@ def gen_case(rng, bad=False):
         kind = rng.choice(['unknown', 'foreign', 'wrongkind', 'not_unknown', 'dunder'])
         cbs = [b for b in blocks[:-1] if b['kind'] != 'S']
         if kind == 'wrongkind' and any(kinds[x] != 'S' for x in names):
-            named.append([rng.choice([x for x in names if kinds[x] != 'S']), 'event'])
+            named.append([rng.choice([x for x in names if kinds[x] != 'S']), rng.choice(['event', 'ifnotinit'])])
         elif cbs:
             b = rng.choice(cbs)
             r = {'unknown': ['name', 'nosuch'], 'foreign': ['foreign'],
